@@ -197,6 +197,16 @@ Definition append_query (path : bytes) (query : option bytes) (k v : bytes) : by
 Definition plain_uri (u : urlparts) : bytes :=
   u_prefix u ++ u_path u ++ match u_query u with Some q => 63%N :: q | None => [] end.
 
+(* structured content of a request, from the builder *)
+Definition summary_of (b : builder) : wsum :=
+  {| ws_source := p_source (b_params b); ws_session := b_sessid b; ws_request := b_reqid b;
+     ws_apps := map (fun e =>
+       {| wa_id := a_id (e_app e); wa_cohort := a_cohort (e_app e); wa_uc := e_uc e;
+          wa_ping := if e_ping e then Some (a_uc (e_app e), a_uc (e_app e)) else None;
+          wa_events := map (fun ev => (etype_code (ev_type ev), eresult_code (ev_result ev),
+                                       match ev_err ev with Some x => Some (eerr_code x) | None => None end,
+                                       ev_prev ev, ev_next ev)) (e_events e) |}) (b_entries b) |}.
+
 (* X-Retry-After: first header value; HeaderValue::to_str; u64::from_str; min 86400 s *)
 Definition to_str_ok (v : bytes) : bool := forallb (fun b => ((32 <=? b) && (b <? 127))%N || (b =? 9)%N) v.
 Definition parse_retry_after (h : option bytes) : option Z :=
@@ -222,7 +232,6 @@ Definition do_omaha_request (b : builder) (m : sm) : M (sm * (req_err + body)) :
     (match m_cup m with Some _ => n <- fresh_nonce ;; ret tt | None => ret tt end) ;;;
     ret (m, inl REHttpBuilder)
   else
-    sess <- match b_sessid b with Some s => ret (Some s) | None => ret None end ;;
     uri <- (match m_cup m with
             | Some kid => n <- fresh_nonce ;;
                           ret (u_prefix (m_url m) ++
@@ -230,8 +239,8 @@ Definition do_omaha_request (b : builder) (m : sm) : M (sm * (req_err + body)) :
                                             (print_dec kid ++ 58%N :: nonce_text n))
             | None => ret (plain_uri (m_url m))
             end) ;;
-    emit (AHttp {| w_uri := uri; w_headers := headers_of cfg b; w_body := body_of cfg b |}) ;;;
     o <- pop_http ;;
+    emit (AHttp {| w_uri := uri; w_headers := headers_of cfg b; w_body := body_of cfg b; w_sum := summary_of b |} o) ;;;
     match o with
     | HErr k => ret (m, inl (REHttpTransport k))
     | HResp status ra authentic bd =>
@@ -400,17 +409,17 @@ Definition perform_update_check (fuel : nat) (p : params) (apps : list app) (m :
       | [] => yield_state NoUpdateAvailable ;;; ret (m, inr (make_app_responses d ANoUpdate, RebootNotNeeded))
       | _ =>
           let nv : nvmap := map (fun r => (r_id r, manifest_version r)) with_update in
-          emit (AInstaller (ICreatePlan p (match m_cup m with Some _ => Some true | None => None end) d
-                                        (match m_cup m with Some _ => true | None => false end))) ;;;
           pl <- pop_plan ;;
+          emit (AInstaller (ICreatePlan p (match m_cup m with Some _ => Some true | None => None end) d
+                                        (match m_cup m with Some _ => true | None => false end)) (IPlan pl)) ;;;
           match pl with
           | None =>
               yield_state InstallingUpdate ;;; yield_state InstallationError ;;;
               m <- report_event p (event_error EEConstructInstallPlan) apps sess nv None m ;;
               ret (m, inl CEInstallPlan)
           | Some plan =>
-              emit (APolicy (QCanStart plan)) ;;;
               dec <- pop_can_start ;;
+              emit (APolicy (QCanStart plan) (PUDecision dec)) ;;;
               match dec with
               | UDeferred =>
                   m <- report_event p deferred_event apps sess nv None m ;;
@@ -425,8 +434,8 @@ Definition perform_update_check (fuel : nat) (p : params) (apps : list app) (m :
                   t0 <- now ;;
                   let start := wall t0 in
                   first_seen <- record_first_seen plan start ;;
-                  emit (AInstaller (IPerform plan)) ;;;
                   pa <- pop_perform ;;
+                  emit (AInstaller (IPerform plan) (IPerformed pa)) ;;;
                   iterM (fun bits => yield_ (EvProgress bits)) (pa_progress pa) ;;;
                   let results := pa_results pa in
                   let no_failed := forallb (fun r => match r with RFailed => false | _ => true end) results in
@@ -478,8 +487,8 @@ Definition perform_update_check (fuel : nat) (p : params) (apps : list app) (m :
                        | Some next => st_write (SSetStr K_TARGET_VERSION (match next with Some v => v | None => s2b "UNKNOWN" end)) ;;; ret tt
                        | None => ret tt end) ;;;
                       st_write SCommit ;;;
-                      emit (APolicy (QRebootNeeded plan)) ;;;
                       rn <- pop_reboot_needed ;;
+                      emit (APolicy (QRebootNeeded plan) (PBool rn)) ;;;
                       ret (m, inr (responses, if rn then RebootNeeded plan else RebootNotNeeded))
                   end
               end
@@ -564,8 +573,8 @@ Definition role_eqb (a b : role) : bool :=
   match a, b with RMin, RMin | RUntil, RUntil | RReboot, RReboot => true | _, _ => false end.
 
 Definition update_next_update_time (m : sm) : M (sm * timing) :=
-  emit (APolicy (QNextTime (m_apps m) (m_sched m) (m_ps m))) ;;;
   t <- pop_next_time ;;
+  emit (APolicy (QNextTime (m_apps m) (m_sched m) (m_ps m)) (PTiming t)) ;;;
   let m := with_sched m (set_next (m_sched m) (Some t)) in
   yield_ (EvSchedule (m_sched m)) ;;;
   ret (m, t).
@@ -604,7 +613,7 @@ Definition do_outer_select (pending : list role) : M (option (isource * N)) := f
   end.
 
 Definition ask_reboot_allowed (src : isource) : M bool :=
-  emit (APolicy (QRebootAllowed src)) ;;; pop_reboot_allowed.
+  b <- pop_reboot_allowed ;; emit (APolicy (QRebootAllowed src) (PBool b)) ;;; ret b.
 
 Definition has_ping_roles (p : list role) : bool := existsb (fun r => match r with RReboot => false | _ => true end) p.
 
@@ -655,7 +664,7 @@ Definition wait_for_reboot (fuel : nat) (src : isource) (m : sm) : M sm :=
           let '(m1, t) := mt in
           roles <- make_wait t ;;
           reboot_loop fuel src (RReboot :: roles) m1) ;;
-  emit (AInstaller IReboot) ;;; pop_reboot ;;; ret m.
+  ok <- pop_reboot ;; emit (AInstaller IReboot (IRebooted ok)) ;;; ret m.
 
 (* state_machine.rs:516-574 report_waited_for_reboot_duration *)
 Definition waited_for_reboot (finish start_mono : Z) (n : ctime) : option Z :=
@@ -680,8 +689,8 @@ Definition run_iteration (fuel : nat) (finish : option Z) (start_mono : Z) (shou
   roles <- make_wait t ;;
   sel <- do_outer_select roles ;;
   let src := match sel with Some (s, _) => s | None => ScheduledTask end in
-  emit (APolicy (QCheckAllowed (m_apps m) (m_sched m) (m_ps m) src)) ;;;
   dec <- pop_allowed ;;
+  emit (APolicy (QCheckAllowed (m_apps m) (m_sched m) (m_ps m) src) (PDecision dec)) ;;;
   match dec with
   | DTooSoon | DThrottled | DDenied =>
       (match sel with Some (_, id) => emit (AReply id Throttled) | None => ret tt end) ;;;
